@@ -1519,3 +1519,118 @@ Proof.
     destruct (Z.ltb_spec (H * hour + 1) ((H + 1) * hour)) as [_|C]; [|unfold hour, sec in *; lia].
     cbn [andb]. lia.
 Qed.
+
+(* ------------------------------------------------------------------------------------ *)
+(* concurrent FIRST requests of a token: get-or-create as two critical sections           *)
+(* ------------------------------------------------------------------------------------ *)
+
+(* all interleavings of any number of request threads *)
+Inductive greach (recheck : bool) (limit : Z) : gstate * list gpc -> Prop :=
+| gr_init : greach recheck limit (g_init, [])
+| gr_spawn s ts : greach recheck limit (s, ts) -> greach recheck limit (s, ts ++ [GStart])
+| gr_step s ts i p s' p' :
+    greach recheck limit (s, ts) -> nth_error ts i = Some p ->
+    gstep recheck limit s p = Some (s', p') -> greach recheck limit (s', gupd i p' ts).
+
+Lemma grun_reach recheck limit : forall sched s ts,
+  greach recheck limit (s, ts) -> greach recheck limit (grun recheck limit s ts sched).
+Proof.
+  induction sched as [|i r IH]; intros s ts H; cbn [grun]; [exact H|].
+  destruct (nth_error ts i) as [p|] eqn:E; [|apply IH; exact H].
+  destruct (gstep recheck limit s p) as [[s' p']|] eqn:G; [|apply IH; exact H].
+  apply IH. eapply gr_step; eassumption.
+Qed.
+
+Definition gval (p : gpc) : Z := match p with GDone true => 1 | _ => 0 end.
+
+Lemma gadm_app a b : gadm (a ++ b) = gadm a + gadm b.
+Proof.
+  induction a as [|x r IH]; cbn [app gadm]; [lia|]. destruct x as [| |i|[|]]; cbn [gadm]; rewrite ?IH; lia.
+Qed.
+
+Lemma gadm_cons p r : gadm (p :: r) = gval p + gadm r.
+Proof. destruct p as [| |i|[|]]; cbn; lia. Qed.
+
+Lemma gupd_split (ts : list gpc) i p :
+  nth_error ts i = Some p -> exists a b, ts = a ++ p :: b /\ forall q, gupd i q ts = a ++ q :: b.
+Proof.
+  intros H. destruct (nth_error_split ts i H) as (a & b & -> & Hl). exists a, b. split; [reflexivity|].
+  intros q. unfold gupd. rewrite (firstn_app_len a (p :: b) i Hl), (skipn_S_app_len a b p i Hl). reflexivity.
+Qed.
+
+(* with the re-check there is at most ONE counter object and every thread that holds a counter
+   holds that one; its count is the number of admitted requests *)
+Definition ginv (limit : Z) (c : gstate * list gpc) : Prop :=
+  let '(s, ts) := c in
+  match g_objs s with
+  | [] => g_slot s = None /\ Forall (fun p => p = GStart \/ p = GMiss) ts /\ gadm ts = 0
+  | [k] => g_slot s = Some 0%nat /\ Forall (fun p => match p with GHave i => i = 0%nat | _ => True end) ts /\
+           gadm ts = k /\ 0 <= k <= limit
+  | _ => False
+  end.
+
+Lemma greach_inv limit : 0 < limit -> forall c, greach true limit c -> ginv limit c.
+Proof.
+  intros Hl c H. induction H as [|s ts H IH|s ts i p s' p' H IH Hn Hs].
+  - cbn. repeat split; constructor.
+  - unfold ginv in *. destruct (g_objs s) as [|k [|? ?]]; [| |exact IH].
+    + destruct IH as (A & B & C). split; [exact A|]. split.
+      * apply Forall_app. split; [exact B|]. constructor; [left; reflexivity|constructor].
+      * rewrite gadm_app, C. reflexivity.
+    + destruct IH as (A & B & C & D). split; [exact A|]. split.
+      * apply Forall_app. split; [exact B|]. constructor; [exact I|constructor].
+      * split; [rewrite gadm_app, C; cbn; lia|exact D].
+  - destruct (gupd_split ts i p Hn) as (a & b & -> & Hu). rewrite Hu.
+    unfold ginv in IH |- *.
+    destruct p as [| |j|ok]; cbn [gstep] in Hs.
+    + (* read-locked lookup *)
+      injection Hs as <- <-.
+      destruct (g_objs s) as [|k [|? ?]]; [| |exact IH].
+      * destruct IH as (A & B & C). rewrite A. split; [reflexivity|].
+        apply Forall_app in B. destruct B as [B1 B2]. apply Forall_cons_iff in B2. destruct B2 as [Bh Bt]. split.
+        -- apply Forall_app. split; [exact B1|]. constructor; [right; reflexivity|assumption].
+        -- rewrite gadm_app, gadm_cons in *. cbn [gval] in *. exact C.
+      * destruct IH as (A & B & C & D). rewrite A. split; [reflexivity|].
+        apply Forall_app in B. destruct B as [B1 B2]. apply Forall_cons_iff in B2. destruct B2 as [Bh Bt]. split.
+        -- apply Forall_app. split; [exact B1|]. constructor; [reflexivity|assumption].
+        -- split; [|exact D]. rewrite gadm_app, gadm_cons in *. cbn [gval] in *. exact C.
+    + (* write-locked section with re-check *)
+      destruct (g_objs s) as [|k [|? ?]] eqn:Eo; [| |destruct IH].
+      * destruct IH as (A & B & C). rewrite A in Hs. cbn in Hs. injection Hs as <- <-.
+        cbn [g_objs g_slot app]. split; [reflexivity|].
+        apply Forall_app in B. destruct B as [B1 B2]. apply Forall_cons_iff in B2. destruct B2 as [Bh Bt]. split.
+        -- apply Forall_app. split.
+           ++ eapply Forall_impl; [|exact B1]. intros q [->| ->]; exact I.
+           ++ constructor; [reflexivity|]. eapply Forall_impl; [|eassumption]. intros q [->| ->]; exact I.
+        -- rewrite gadm_app, gadm_cons in *. cbn [gval] in *. split; [exact C|lia].
+      * destruct IH as (A & B & C & D). rewrite A in Hs. injection Hs as <- <-. rewrite Eo.
+        split; [exact A|].
+        apply Forall_app in B. destruct B as [B1 B2]. apply Forall_cons_iff in B2. destruct B2 as [Bh Bt]. split.
+        -- apply Forall_app. split; [exact B1|]. constructor; [reflexivity|assumption].
+        -- split; [|exact D]. rewrite gadm_app, gadm_cons in *. cbn [gval] in *. exact C.
+    + (* Allow on the counter held *)
+      destruct (g_objs s) as [|k [|? ?]] eqn:Eo; [| |destruct IH].
+      * destruct IH as (_ & B & _). apply Forall_app in B. destruct B as [_ B2]. apply Forall_cons_iff in B2. destruct B2 as [[Bh|Bh] _]; discriminate.
+      * destruct IH as (A & B & C & D).
+        apply Forall_app in B. destruct B as [B1 B2]. apply Forall_cons_iff in B2. destruct B2 as [Hj B3]. cbn in Hj. subst j.
+        cbn [nth] in Hs.
+        destruct ((0 <? limit) && (limit <=? k)) eqn:E; injection Hs as <- <-.
+        -- rewrite Eo. split; [exact A|]. split.
+           ++ apply Forall_app. split; [exact B1|]. constructor; [exact I|exact B3].
+           ++ split; [|exact D]. rewrite gadm_app, gadm_cons in *. cbn [gval] in *. exact C.
+        -- cbn [g_objs g_slot]. unfold set_nth. cbn [firstn skipn app].
+           apply andb_false_iff in E. assert (k < limit) by (destruct E as [E|E]; [apply Z.ltb_ge in E|apply Z.leb_gt in E]; lia).
+           split; [exact A|]. split.
+           ++ apply Forall_app. split; [exact B1|]. constructor; [exact I|exact B3].
+           ++ rewrite gadm_app, gadm_cons in *. cbn [gval] in *. split; lia.
+    + discriminate.
+Qed.
+
+Theorem first_requests_bounded limit s ts :
+  0 < limit -> greach true limit (s, ts) -> gadm ts <= limit /\ (length (g_objs s) <= 1)%nat.
+Proof.
+  intros Hl H. pose proof (greach_inv limit Hl _ H) as I. unfold ginv in I.
+  destruct (g_objs s) as [|k [|? ?]]; [| |destruct I].
+  - destruct I as (_ & _ & C). cbn. lia.
+  - destruct I as (_ & _ & C & D). cbn. lia.
+Qed.
